@@ -91,3 +91,21 @@ mod vx_kani {
         }
     }
 }
+#[cfg(kani)]
+mod vx_kani_c18 {
+    use super::*;
+    /// NodeLabel::to_bytes = be32(label_len) || label_val  (complete: fixed width) — the `label_bytes` of the Verus units
+    #[kani::proof]
+    #[kani::unwind(40)]
+    fn c18_label_to_bytes() {
+        let l = NodeLabel { label_val: kani::any(), label_len: kani::any() };
+        let r = l.to_bytes();
+        assert!(r.len() == 36);
+        let k: usize = kani::any();
+        kani::assume(k < 32);
+        if k < 4 {
+            assert!(r[k] == (l.label_len >> (24 - 8 * k)) as u8);
+        }
+        assert!(r[4 + k] == l.label_val[k]);
+    }
+}
